@@ -964,3 +964,55 @@ package mocrelay
 //@     invariant !isnil(smsgCh) && fresh(smsgCh) && chanbuf(smsgCh) == lold(chanbuf(smsgCh)) && lold(chanhead(smsgCh)) <= chanhead(smsgCh) && chanhead(smsgCh) <= len(chanbuf(smsgCh))
 //@     invariant g(dropped, send) >= lold(g(dropped, send))
 //@     invariant[C17] g(dropped, send) == lold(g(dropped, send)) ==> extendsBy(chanbuf(send), lold(chanbuf(send)), chanbuf(smsgCh), lold(chanhead(smsgCh)), chanhead(smsgCh))
+
+// ---------------------------------------------------------------------------------------------
+// C11: events, filters, messages
+
+//@ func sliceAllFunc
+//@   serves C11
+//@   opt inst.T=string
+//@   pure
+//@   ensures result == forall(i, 0, len(vs), f(vs[i]))
+
+//@ func Event.Valid
+//@   serves C11
+//@   pure
+//@   ensures result == nipValidEvent(ev)
+
+//@ func ReqFilter.Valid
+//@   serves C11
+//@   pure
+//@   ensures ok == nipValidFilter(fil)
+//@   loop 1 visited vs
+//@     invariant all(k, string, vs[k] ==> (has(fil.Tags, k) && nipValidTagFilter(k, fil.Tags[k])))
+
+//@ func validNaddr
+//@   serves C11
+//@   uses naddrOK_def
+//@   pure
+//@   ensures ok == naddrOK(naddr)
+
+//@ func ClientEventMsg.Valid
+//@   serves C11
+//@   pure
+//@   ensures result == (msg != nil && nipValidEvent(msg.Event))
+//@ func ClientAuthMsg.Valid
+//@   serves C11
+//@   pure
+//@   ensures result == (msg != nil && nipValidEvent(msg.Event))
+//@ func ClientCloseMsg.Valid
+//@   serves C11
+//@   pure
+//@   ensures result == (msg != nil)
+//@ func ClientReqMsg.Valid
+//@   serves C11
+//@   pure
+//@   ensures ok == (msg != nil && nipValidFilters(msg.ReqFilters))
+//@ func ClientCountMsg.Valid
+//@   serves C11
+//@   pure
+//@   ensures ok == (msg != nil && nipValidFilters(msg.ReqFilters))
+//@ func ValidClientMsg
+//@   serves C11
+//@   pure
+//@   ensures result == nipValidClientMsg(msg)
